@@ -472,3 +472,84 @@ Theorem wire_contiguous nfrag nfw sched :
   let s := m_run nfrag sched (m_init nfw) in
   exists done, blocks nfrag done /\ mwire s = done ++ partial s.
 Proof. cbv zeta. destruct (mutex_inv nfrag nfw sched) as [_ _ _ _ W]. exact W. Qed.
+
+(* ---------------------------------------------------------------------------------------------- *)
+(* onReadReady is an instance of the read/commit operation lists                                  *)
+(* ---------------------------------------------------------------------------------------------- *)
+(* the kernel's side of the contract during one onReadReady: every read call returns between 1 and `count` bytes
+   (count = the room left after the expansion the code performs first) that exist in the stream *)
+Fixpoint kernel_ok (c : cfg) (g : geom) (reads pol : list Z) (avail : Z) : Prop :=
+  match reads with
+  | [] => True
+  | n :: r =>
+    let ge := g_expand g in
+    1 <= n <= g_room ge /\ n <= avail /\
+    let g1 := g_read ge n in
+    if g_window g1 >=? threshold c
+    then kernel_ok c (g_commit c g1 (Z.min (hd 0 pol) (g_window g1))) r (tl pol) (avail - n)
+    else kernel_ok c g1 r pol (avail - n)
+  end.
+
+Lemma step_read_ok c stream s n : cfg_ok c -> rinv stream s ->
+  1 <= n <= g_room (g_expand (geo (rb s))) -> n <= zlen stream - received s ->
+  exists s1, r_step c stream s (RRead n) = Some s1 /\ geo (rb s1) = g_read (g_expand (geo (rb s))) n /\
+             received s1 = received s + n /\ rinv stream s1.
+Proof.
+  intros C I Hn Ha. pose proof I as [(G1 & G2 & G3) L (N1 & N2 & N3) W].
+  destruct (expand_props (rb s) G1 G2 G3 L) as (EG & _).
+  assert (S : r_step c stream s (RRead n) =
+              Some {| rb := r_read (r_expand (rb s)) (slice stream (received s) (received s + n));
+                      received := received s + n; consumed := consumed s |}).
+  { cbn [r_step]. rewrite EG.
+    replace ((1 <=? n) && (n <=? g_room (g_expand (geo (rb s)))) && (received s + n <=? zlen stream)) with true; [reflexivity|].
+    symmetry. rewrite !andb_true_iff. repeat split; apply Z.leb_le; lia. }
+  eexists. split; [exact S|]. split; [|split; [reflexivity | eapply rinv_step; eauto]].
+  cbn [rb r_read geo]. rewrite EG. f_equal. rewrite zlen_slice; lia.
+Qed.
+
+Lemma step_commit_ok c stream s k : cfg_ok c -> rinv stream s ->
+  0 <= k <= g_window (geo (rb s)) ->
+  exists s1, r_step c stream s (RCommit k) = Some s1 /\ geo (rb s1) = g_commit c (geo (rb s)) k /\
+             received s1 = received s /\ rinv stream s1.
+Proof.
+  intros C I Hk.
+  assert (S : r_step c stream s (RCommit k) =
+              Some {| rb := r_commit c (rb s) k; received := received s; consumed := consumed s + k |}).
+  { cbn [r_step]. replace ((0 <=? k) && (k <=? g_window (geo (rb s)))) with true; [reflexivity|].
+    symmetry. rewrite andb_true_iff. split; apply Z.leb_le; lia. }
+  eexists. split; [exact S|]. split; [reflexivity|]. split; [reflexivity | eapply rinv_step; eauto].
+Qed.
+
+Lemma policy_commit_ok stream s pol : rinv stream s -> Forall (fun k => 0 <= k) pol ->
+  0 <= Z.min (hd 0 pol) (g_window (geo (rb s))) <= g_window (geo (rb s)).
+Proof.
+  intros [(G1 & G2 & G3) _ _ _] F. unfold g_window.
+  assert (0 <= hd 0 pol) by (destruct F; cbn [hd]; lia). lia.
+Qed.
+
+Theorem on_read_ready_instance c stream : cfg_ok c -> forall reads s pol,
+  rinv stream s -> Forall (fun k => 0 <= k) pol ->
+  kernel_ok c (geo (rb s)) reads pol (zlen stream - received s) ->
+  exists s', r_run c stream s (fst (fst (fst (on_read_ready c (geo (rb s)) reads pol)))) = Some s' /\
+             geo (rb s') = snd (fst (on_read_ready c (geo (rb s)) reads pol)) /\ rinv stream s'.
+Proof.
+  intros C. induction reads as [|n r IH]; intros s pol I F K.
+  - cbn [on_read_ready fst snd r_run].
+    destruct (step_commit_ok c stream s _ C I (policy_commit_ok stream s pol I F)) as (s1 & S & G & _ & I1).
+    rewrite S. exists s1. auto.
+  - cbn [kernel_ok] in K. destruct K as (Hn & Ha & K). cbv zeta in K.
+    destruct (step_read_ok c stream s n C I Hn Ha) as (s1 & S1 & G1 & R1 & I1).
+    cbn [on_read_ready]. rewrite <- G1 in *.
+    destruct (g_window (geo (rb s1)) >=? threshold c) eqn:T.
+    + destruct (step_commit_ok c stream s1 _ C I1 (policy_commit_ok stream s1 pol I1 F)) as (s2 & S2 & G2 & R2 & I2).
+      rewrite <- G2 in *.
+      assert (F' : Forall (fun k => 0 <= k) (tl pol)) by (destruct F; [constructor | assumption]).
+      replace (zlen stream - received s - n) with (zlen stream - received s2) in K by lia.
+      destruct (IH s2 (tl pol) I2 F' K) as (s' & R & G & I').
+      destruct (on_read_ready c (geo (rb s2)) r (tl pol)) as [[[ops obs] g3] pol'].
+      cbn [fst snd] in *. cbn [r_run]. rewrite S1, S2. exists s'. auto.
+    + replace (zlen stream - received s - n) with (zlen stream - received s1) in K by lia.
+      destruct (IH s1 pol I1 F K) as (s' & R & G & I').
+      destruct (on_read_ready c (geo (rb s1)) r pol) as [[[ops obs] g3] pol'].
+      cbn [fst snd] in *. cbn [r_run]. rewrite S1. exists s'. auto.
+Qed.
